@@ -13,6 +13,14 @@ CHECKS = {
    note="Trusted: Go channel semantics as modelled; TLC; the harness recorder (one lock). Blocking claims are observed with a stability window and must reproduce 3 times."),
 }
 
+CHECKS["C02"] = dict(
+   engine="tlc+codecdrive",
+   technique="TLA+ reference of the wire format (TarsWire.tla) self-checked by TLC on an exhaustive small scope; batch oracle: TLC judges every (type, tag, value) -> bytes -> value record produced by the real Write*/Read*",
+   category="model_checking",
+   text="TarsWire.tla defines the wire format over byte sequences; TLC proves round trip / narrowest width / widening on the reference for all 8-bit values x tags and 16-bit values, then judges every record of the real codec: all int8/uint8/bool x 256 tags, all 16-bit values x 2 (quick) or 24 (thorough) tags, boundary-dense and random 32/64-bit values, float specials incl. NaN payloads and subnormals, strings at the 255/256 boundary, hand-made non-narrowest encodings, each read back through every admissible reader with sentinel bytes after the field (exact end position).",
+   design_ref="5/C02",
+   note="Trusted: TarsWire.tla as the format definition, TLC, JSON transport of byte arrays. 32/64-bit spaces are sampled (boundaries of every width +-2, powers of two, random).")
+
 PENDING = {}
 
 def main():
